@@ -126,7 +126,28 @@ def showServed : Served → String
   | .handler (some k) => "in:" ++ toString k
   | .handler none => "in:*"
 
+/-- the fixed server of the end-to-end cases (harness `setupE2E`) -/
+def e2eSecret : Bytes := [115, 101, 99, 114, 101, 116, 46, 116, 101, 115, 116]   -- "secret.test"
+def e2ePublic : Bytes := [112, 117, 98, 108, 105, 99, 46, 116, 101, 115, 116]    -- "public.test"
+def e2ePolicies : List Policy := [⟨[.sni [e2eSecret]], false, true⟩, ⟨[], false, false⟩]
+def e2eSites : List Bytes := [e2eSecret, e2ePublic]
+
+/-- SNIs an e2e case may carry: non-empty, no trailing dot, no `%`, some letter g–z / G–Z
+    (so Go's client sends it verbatim: it is not an IP literal) -/
+def e2eSniOk (s : Bytes) : Bool :=
+  !s.isEmpty && s.getLast? != some 46 && !s.contains 37 &&
+    s.any fun c => (103 ≤ c && c ≤ 122) || (71 ≤ c && c ≤ 90)
+
 def handle : List String → String
+  | ["e2e", hs, sni, host] =>
+    match hexField sni, hexField host with
+    | some s, some h =>
+      if !e2eSniOk s then "bad-op"
+      else if hs == "f" then "hs=f"
+      else if hs == "p0" || hs == "p1" then
+        "hs=" ++ hs ++ " " ++ showServed (serve (effectiveStrict none e2ePolicies) e2eSites (some s) h)
+      else "bad-op"
+    | _, _ => "bad-op"
   | ["pol", l, pols, hellos] =>
     match (if l == "0" then some false else if l == "1" then some true else none),
           parsePolicies pols, (hellos.splitOn ";").mapM parseHello with
